@@ -1,3 +1,4 @@
 pub mod alu;
 pub mod asm;
+pub mod grammar;
 pub mod isa;
